@@ -28,6 +28,7 @@ type Ops []struct {
 	Reversed            string
 	Conversion          string
 	FailReturn          string
+	IdentityReturn      string
 }
 
 type Data struct {
@@ -66,8 +67,8 @@ var data = Data{
 		{Name: "ge", Title: "Ge", Operator: ">=", Reversed: "le"},
 		{Name: "lt", Title: "Lt", Operator: "<", Reversed: "gt"},
 		{Name: "le", Title: "Le", Operator: "<=", Reversed: "ge"},
-		{Name: "eq", Title: "Eq", Operator: "==", Reversed: "eq", FailReturn: "False"},
-		{Name: "ne", Title: "Ne", Operator: "!=", Reversed: "ne", FailReturn: "True"},
+		{Name: "eq", Title: "Eq", Operator: "==", Reversed: "eq", FailReturn: "False", IdentityReturn: "True"},
+		{Name: "ne", Title: "Ne", Operator: "!=", Reversed: "ne", FailReturn: "True", IdentityReturn: "False"},
 	},
 }
 
@@ -199,11 +200,14 @@ func {{.Title}}(a Object, b Object) (Object, error) {
 	}
 
 {{ if .FailReturn}}
-if a.Type() != b.Type() {
+	// Neither object defines the comparison: the default is identity
+	if ObjectIs(a, b) {
+		return {{ .IdentityReturn }}, nil
+	}
 	return {{ .FailReturn }}, nil
-}
-{{ end }}
+{{ else }}
 	return nil, ExceptionNewf(TypeError, "unsupported operand type(s) for {{.Operator}}: '%s' and '%s'", a.Type().Name, b.Type().Name)
+{{ end }}
 }
 {{ end }}
 `
